@@ -44,6 +44,26 @@ async fn fresh(port: u16, socks: bool, origin: u16) -> bool {
     tokio::time::timeout(std::time::Duration::from_secs(2), fut).await.ok().flatten().unwrap_or(false)
 }
 
+/// SOCKS5 with user / password: CONNECT to the echo origin, "ping" must come back within 2 s
+async fn fresh_socks_auth(port: u16, user: &str, pass: &str, origin: u16, wait_ms: u64) -> bool {
+    let fut = async {
+        let mut s = TcpStream::connect(("127.0.0.1", port)).await.ok()?;
+        let mut r = vec![5u8, 1, 2, 1, user.len() as u8];
+        r.extend(user.as_bytes());
+        r.push(pass.len() as u8);
+        r.extend(pass.as_bytes());
+        r.extend([5u8, 1, 0, 1, 127, 0, 0, 1]);
+        r.extend(origin.to_be_bytes());
+        r.extend(b"ping");
+        s.write_all(&r).await.ok()?;
+        // method reply (2) + auth reply (2) + connect reply (10) + echo (4)
+        let mut v = vec![0u8; 18];
+        s.read_exact(&mut v).await.ok()?;
+        Some(v.ends_with(b"ping"))
+    };
+    tokio::time::timeout(std::time::Duration::from_millis(wait_ms), fut).await.ok().flatten().unwrap_or(false)
+}
+
 pub async fn run(out: &mut Out) {
     let thorough = out.tier_thorough();
     // echo origin, and an origin that accepts and never reads
@@ -99,6 +119,12 @@ pub async fn run(out: &mut Out) {
     w.state.contexts.clone().gc_thread();
     let http = start_listener(&w, "name: http\ntype: http").await;
     let socks = start_listener(&w, "name: socks\ntype: socks").await;
+    // a SOCKS listener whose credentials are checked by an external helper that is slow for user names starting with "slow"
+    let socksauth = start_listener(
+        &w,
+        "name: socksauth\ntype: socks\nauth:\n  required: true\n  cmd: [\"/bin/sh\", \"-c\", \"case $0 in slow*) sleep 6;; esac; [ $1 = pw ]\", \"#USER#\", \"#PASS#\"]\n  cache:\n    timeout: 300",
+    )
+    .await;
     let api = free_port();
     let m: crate::metrics::MetricsServer = serde_yaml::from_str(&format!("bind: 127.0.0.1:{}\nui: null", api)).unwrap();
     Arc::new(m).listen(w.state.clone()).await.unwrap();
@@ -171,6 +197,23 @@ pub async fn run(out: &mut Out) {
         let _ = tokio::time::timeout(std::time::Duration::from_secs(2), s.read_exact(&mut r)).await;
         held.push(s);
         probe(out, "open-tunnel-then-reload", api, http, socks, origin, rules_json).await;
+    }
+    // a client whose credential check is slow (external helper): other clients of the same listener - one whose verdict
+    // is cached, one with fresh credentials - are served meanwhile
+    {
+        let warm = fresh_socks_auth(socksauth, "alice", "pw", origin, 4000).await;
+        let slow = tokio::spawn(async move { fresh_socks_auth(socksauth, "slowpoke", "pw", origin, 12000).await });
+        tokio::time::sleep(std::time::Duration::from_millis(400)).await;
+        let cached = fresh_socks_auth(socksauth, "alice", "pw", origin, 2000).await;
+        let other = fresh_socks_auth(socksauth, "bob", "pw", origin, 2000).await;
+        if !warm || !cached || !other {
+            out.oracle_fail(
+                "data-plane-blocked",
+                &format!("scenario auth-helper-slow: while one client's credential check is pending, a client with a cached verdict served={} and a client with fresh credentials served={} within 2 s (first contact served={})", cached, other, warm),
+            );
+        }
+        probe(out, "auth-helper-slow", api, http, socks, origin, rules_json).await;
+        slow.abort();
     }
     // a slow reader of the history (it holds the history list's lock, as GET /api/history does while it serialises) while the
     // collector wants to move an ended connection into the history, and GET /api/status arrives in between
